@@ -12,6 +12,9 @@ inductive BgBeh
   | endsAfter (d : Nat) (exc : Option Nat)     -- runs d ticks, then returns or raises Exception `exc`
   | forever                                    -- runs until cancelled through its handle
   | failsWhenCancelled (e : Nat)               -- runs until cancelled; its clean-up then raises Exception `e`
+  | failsBeforeStarted (e : Nat)               -- started with `start_task`, takes `task_status`, and raises Exception
+                                               -- `e` before it has reported `started()`: the exception goes to the
+                                               -- caller of `start_task`, not into the factory's task group
   deriving DecidableEq, Repr
 
 structure BgSpec where
@@ -45,6 +48,7 @@ inductive FLab
   | exitBegin
   | blockLeft
   | outcome (leaves : List Nat)
+  | startFailed (h : Nat)                                  -- `start_task` raised in its caller: the task ended before `started()`
   deriving DecidableEq, Repr
 
 structure FSt where
@@ -69,6 +73,12 @@ def FSt.init (specs : List BgSpec) (handler : Handler) (snap : List Nat) : FSt :
 def FSt.spec? (s : FSt) (h : Nat) : Option BgSpec := s.specs.find? (·.h == h)
 def FSt.statusOf (s : FSt) (h : Nat) : Option BgStatus := alookup h s.status
 def FSt.setStatus (s : FSt) (h : Nat) (st : BgStatus) : FSt := { s with status := ainsert h st s.status }
+/-- Did task `h` fail before reporting that it had started? -/
+def FSt.startFailure (s : FSt) (h : Nat) : Bool :=
+  match s.spec? h with
+  | some ⟨_, .failsBeforeStarted _⟩ => true
+  | _ => false
+
 def FSt.finish (s : FSt) (h : Nat) : FSt :=
   { (s.setStatus h .ended) with live := s.live.filter (· != h) }
 
@@ -115,6 +125,13 @@ def fstep? (s : FSt) (l : FLab) : Option FSt :=
           | .absent => log { (s.finish h) with crashed := s.crashed ++ [e] }
           | .returns _ => log (s.setStatus h (.raisedPending e))
         else none
+      | .running, .failsBeforeStarted e, some e' =>
+        -- the handler is consulted as for any exception; whatever it says, nothing escapes into the task group
+        if e == e' then
+          match s.handler with
+          | .absent => log (s.finish h)
+          | .returns _ => log (s.setStatus h (.raisedPending e))
+        else none
       | st', .failsWhenCancelled e, some e' =>
         -- an exception escaping a task that was cancelled through its handle is an exception like any other
         -- (after a crash took the application down every task still running is cancelled, asked or not)
@@ -132,7 +149,7 @@ def fstep? (s : FSt) (l : FLab) : Option FSt :=
     | some (.raisedPending e'), .returns truthy =>
       if e == e' && !s.handlerCalls.contains h then
         let s1 := { (s.finish h) with handlerCalls := h :: s.handlerCalls }
-        log (if truthy then s1 else { s1 with crashed := s1.crashed ++ [e] })
+        log (if truthy || s.startFailure h then s1 else { s1 with crashed := s1.crashed ++ [e] })
       else none
     | _, _ => none
   | .observed hs =>
@@ -140,6 +157,10 @@ def fstep? (s : FSt) (l : FLab) : Option FSt :=
   | .waitReturned h =>
     match s.statusOf h with
     | some .ended => log s
+    | _ => none
+  | .startFailed h =>
+    match s.statusOf h with
+    | some .ended => if s.startFailure h then log s else none
     | _ => none
   | .exitBegin => if !s.exiting then log { s with exiting := true } else none
   | .blockLeft =>
